@@ -10,6 +10,97 @@ func init() {
 	extraGens["C15"] = (*Gen).genC15
 	extraGens["C16"] = (*Gen).genC16
 	extraGens["C19"] = (*Gen).genC19
+	extraGens["FRZ"] = (*Gen).genFrozen
+}
+
+// genFrozen: scripts whose files are written once by the pinned release and kept
+// (corpus/frozen); only reopened segments are queried.
+func (g *Gen) genFrozen(n int) error {
+	if n == 0 {
+		n = 40
+	}
+	for i := 0; i < n; i++ {
+		g.emit("note case %d", i)
+		m := chunkModes[i%len(chunkModes)]
+		g.curMode = m
+		g.emit("cfg chunkmode=%d", m)
+		var opened []string
+		nb := 1 + g.r.Intn(2)
+		for k := 0; k < nb; k++ {
+			cfg := g.defaultCfg()
+			cfg.minDocs = 2
+			cfg.syn = i%3 == 0
+			cfg.vec = g.vectors
+			b := g.randBatch(g.fresh("b"), cfg)
+			g.emitBatch(b)
+			s := g.fresh("s")
+			g.emit("build %s %s", s, b.Name)
+			g.newBuilt(s, b)
+			f := g.fresh("f")
+			g.emit("persist %s %s", s, f)
+			g.emit("footer %s mode=%d docs=%d", f, m, len(b.Docs))
+			o := g.fresh("o")
+			g.emit("open %s %s", o, f)
+			g.alias(o, s)
+			g.dumpAll(o)
+			g.vecLight(o)
+			opened = append(opened, o)
+		}
+		// one merge with at least one survivor, and a re-merge of its result
+		var drops []string
+		total := 0
+		u := newUniverse()
+		for k, o := range opened {
+			d := g.randDrops(g.ndocs[o])
+			if k == 0 {
+				d = g.pick([]string{"nil", "-", "0"})
+			}
+			drops = append(drops, d)
+			total += g.ndocs[o] - dropCount(d)
+			u.union(g.univ[o], 0)
+		}
+		mf := g.fresh("f")
+		g.emit("merge %s segs=%s drops=%s", mf, strList(opened), strings.Join(drops, "|"))
+		mm := g.fresh("m")
+		g.emit("open %s %s", mm, mf)
+		g.univ[mm] = u
+		g.ndocs[mm] = total
+		g.dumpAll(mm)
+		g.vecLight(mm)
+		mf2 := g.fresh("f")
+		d2 := "nil"
+		if total > 1 {
+			d2 = "0"
+		}
+		g.emit("merge %s segs=%s drops=%s", mf2, mm, d2)
+		m2 := g.fresh("m")
+		g.emit("open %s %s", m2, mf2)
+		g.univ[m2] = u
+		g.ndocs[m2] = total - dropCount(d2)
+		g.dumpAll(m2)
+		g.vecLight(m2)
+		for _, o := range append(opened, mm, m2) {
+			g.emit("close %s", o)
+		}
+	}
+	return nil
+}
+
+func (g *Gen) vecLight(seg string) {
+	if !g.vectors {
+		return
+	}
+	nd := g.ndocs[seg]
+	for _, f := range []string{"vecA", "vecB"} {
+		h := g.fresh("h")
+		ex := g.randDrops(nd)
+		g.emit("vopen %s %s %s filt=1 ex=%s", h, seg, f, ex)
+		g.emit("vsearch %s q=%s k=%d", h, g.randQuery(2), 1+g.r.Intn(nd+1))
+		g.emit("vsearch %s q=%s k=%d", h, g.randQuery(2), nd*3)
+		g.emit("vsearch %s q=%s k=%d elig=%s", h, g.randQuery(2), 2, g.liveSubset(nd, ex, 1))
+		g.emit("vclose %s", h)
+	}
+	g.emit("vstats %s", seg)
 }
 
 func (g *Gen) vecCfg() batchCfg {
